@@ -20,8 +20,8 @@ from .. import flow, absint, effect_engine, units, guards
 
 MANIFEST = {
     "level": "other",
-    "technique": "static analysis over the whole package: flow-sensitive alias/effect analysis with interprocedural summaries, isinstance-guard dominance by abstract interpretation, raise/return/arity/enum path rules on the AST, unbound-name rule on the compiler's symbol tables (symtable), literal table shape audit",
-    "text": "For every function of the package (not a sample of calls): no write can reach an argument object, a module-level table or constant; every attribute use on a parameter sits behind an isinstance guard; only the documented exception classes are raised; no function reads a name that is bound nowhere (NameError); value-returning functions cannot fall off the end; string dispatch is exhaustive; tables have the shape their readers index. Finiteness of results and arithmetic exceptions on in-domain values - including ValueError('math domain error') when rounding pushes a mathematically in-range argument of acos/asin/sqrt out of the domain - are runtime facts and are not decided; explicit `raise` statements are reported without a reachability analysis.",
+    "technique": "static analysis over the whole package: flow-sensitive alias/effect analysis with interprocedural summaries, isinstance-guard dominance by abstract interpretation, raise/return/arity/enum path rules on the AST, unbound-name rule on the compiler's symbol tables (symtable), literal table shape audit; rules on exception handlers (none swallows what a library routine raises), on the width of type guards (none admits complex numbers) and on the wrap idiom of negative angles",
+    "text": "For every function of the package (not a sample of calls): no write can reach an argument object, a module-level table or constant; every attribute use on a parameter sits behind an isinstance guard; only the documented exception classes are raised; no function reads a name that is bound nowhere (NameError); value-returning functions cannot fall off the end; string dispatch is exhaustive; tables have the shape their readers index. Finiteness of results and arithmetic exceptions on in-domain values - including ValueError('math domain error') when rounding pushes a mathematically in-range argument of acos/asin/sqrt out of the domain - are runtime facts and are not decided; explicit `raise` statements are reported without a reachability analysis. No except handler around a call of a library routine carries on with a substitute value; no isinstance guard admits complex numbers (numbers.Number, complex, object); no negative angle is 'normalised' by K - v on its negative branch (the mirrored direction).",
     "note": "Trusted: Python ast; the documented-mutator table (ALLOWED_SELF_MUTATORS) and the two documented mixed-arity functions are explicit whitelists with reasons; no eval/exec/getattr-with-computed-name in the package (checked each run). Undecided: finiteness, ZeroDivision/overflow/termination on in-domain inputs, order independence beyond absence of writes.",
 }
 
